@@ -232,7 +232,8 @@ impl World {
         }
         rec(n, &batch, &mut vec![false; n], &mut vec![], &mut orders);
         // nothing can be observed on a connection that hangs up within the batch
-        let hung: Vec<C> = batch.iter().filter(|(_, m)| m.is_none()).map(|(c, _)| *c).collect();
+        // (the same holds for one that announces its shutdown: its connection stops forwarding)
+        let hung: Vec<C> = batch.iter().filter(|(_, m)| matches!(m, None | Some(Message::Shutdown(_)))).map(|(c, _)| *c).collect();
         for c in &hung {
             self.model.unobservable.insert(*c);
         }
